@@ -56,6 +56,7 @@ def iterWaveforms (A : List (List α)) (ivs : List (Nat × Nat)) (spikes : List 
 structure NpyFile (α : Type) where
   shape : Nat × Nat × Nat
   cells : List α
+deriving Repr, DecidableEq
 
 /-- `export_waveforms(path, traces, spike_samples, spike_channels, n, sample2unit)`;
 `scale` is multiplication by the unit factor followed by the cast to the declared dtype -/
@@ -82,11 +83,15 @@ structure Store (α : Type) where
   spikeIds : List Nat
   spikeChannels : List (List Int)
   waveforms : List (List (List α))
+deriving Repr, DecidableEq
 
-/-- `get_spike_waveforms(spike_ids, channel_ids, store, n)`; `none` = AssertionError / IndexError -/
+/-- `get_spike_waveforms(spike_ids, channel_ids, store, n)`, traces.py:521-545; `none` = AssertionError
+(`assert np.all(np.isin(spike_ids, store.spike_ids))`, `assert nsw > 0`, `assert nc > 0`; with a store whose three
+arrays do not have the same number of rows also IndexError) -/
 def getSpikeWaveforms (st : Store α) (query : List Nat) (chq : List Nat) (n : Nat) :
     Option (List (List (List α))) :=
   if !(query.all st.spikeIds.contains) then none else
+  if n == 0 || chq.isEmpty then none else
   query.mapM fun q =>
     let p := st.spikeIds.idxOf q
     match st.spikeChannels[p]?, st.waveforms[p]? with
@@ -95,5 +100,56 @@ def getSpikeWaveforms (st : Store α) (query : List Nat) (chq : List Nat) (n : N
       some ((List.range n).map fun r => chq.map fun (c : Nat) =>
         if ind.contains (Int.ofNat c) then ((w.getD r []).getD (ind.idxOf (Int.ofNat c)) 0) else 0)
     | _, _ => none
+
+/-! ### The spike-subset store of `TemplateModel` (model.py) -/
+
+/-- the three files `_phy_spikes_subset.{spikes,channels,waveforms}.npy` -/
+structure SubsetFiles (α : Type) where
+  spikes : List Nat                 -- `np.save(path_spikes, spike_ids)`, model.py:1408
+  channels : List (List Int)        -- `np.save(path_channels, spike_channels)`, model.py:1419
+  waveforms : NpyFile α             -- written chunk by chunk by `export_waveforms`, model.py:1422
+deriving Repr, DecidableEq
+
+/-- `TemplateModel._template_n_channels(t, nc)`, model.py:868-878: the first `nc` channels of
+`get_template(t).channel_ids` (`order`, the C05 observable), filled up with −1; a template without spikes
+(`t not in self.template_ids`, `used = false`) gets −1 everywhere -/
+def templateNChannels (used : Bool) (order : List Int) (nc : Nat) : List Int :=
+  if !used then List.replicate nc (-1) else
+  let ch := order.take nc
+  ch ++ List.replicate (nc - ch.length) (-1)
+
+/-- `nc = max_n_channels or self.n_closest_channels; nc = max(nc, self.n_closest_channels)`, model.py:1382-1383
+(`0 or x` is `x`) -/
+def subsetWidth (maxN closest : Nat) : Nat := max (if maxN = 0 then closest else maxN) closest
+
+/-- `best_channels = vstack([_template_n_channels(t, nc) for t in range(n_templates)])`, model.py:1412 -/
+def bestChannels (spikeTemplates : List Nat) (orders : List (List Int)) (nc : Nat) : List (List Int) :=
+  (List.range orders.length).map fun t =>
+    templateNChannels (spikeTemplates.contains t) (orders.getD t []) nc
+
+/-- `save_spikes_subset_waveforms` after the spike selection `sel` (= `spike_ids`, the C17 selector's output),
+model.py:1405-1424: the ids, `best_channels[spike_templates[spike_ids], :]`, and the export of the windows at
+`spike_samples[spike_ids]` on those channel rows, times the unit factor (`scale`) -/
+def saveSubset (scale : α → α) (A : List (List α)) (ivs : List (Nat × Nat)) (spikeSamples : List Int)
+    (spikeTemplates : List Nat) (orders : List (List Int)) (sel : List Nat) (n nc : Nat) : SubsetFiles α :=
+  let best := bestChannels spikeTemplates orders nc
+  let chans := sel.map fun i => best.getD (spikeTemplates.getD i 0) []
+  let samples := sel.map fun i => spikeSamples.getD i 0
+  { spikes := sel, channels := chans, waveforms := exportWaveforms scale A ivs samples chans n nc }
+
+/-- `_load_spike_waveforms`, model.py:662-680, on the three files: `none` when the waveform file does not
+load as an array of its declared shape (the exception is caught and the store is dropped) -/
+def loadSubset (f : SubsetFiles α) : Option (Store α) :=
+  (npLoad f.waveforms).map fun w => { spikeIds := f.spikes, spikeChannels := f.channels, waveforms := w }
+
+/-- `TemplateModel.get_waveforms(spike_ids, channel_ids)` with raw data present, model.py:973-998: the store
+route when a store is loaded, falling back to the raw data when `get_spike_waveforms` raises AssertionError
+(a requested spike is not stored); the raw-data route otherwise -/
+def getWaveforms (store : Option (Store α)) (A : List (List α)) (spikeSamples : List Int)
+    (query : List Nat) (chq : List Nat) (n : Nat) : List (List (List α)) :=
+  let raw := extractWaveforms A (query.map fun q => spikeSamples.getD q 0) n (chq.map Int.ofNat)
+  match store with
+  | none => raw
+  | some st => (getSpikeWaveforms st query chq n).getD raw
 
 end PhyVerif.C03
